@@ -742,10 +742,11 @@ class World:
         if _has_yield(node) and it.out is not None:
             it.out.seq = TSeq(it.out.seq.elem).fresh('out', path.pc)
             path.assume(it.out.seq.length >= 0)
-            if 'pulls' in it.ghost_vars:
-                pl = it.ghost_vars['pulls']
-                pl.seq = TSeq(TInt).fresh('pulls')
-                path.assume(pl.seq.length == it.out.seq.length)
+            for gname in ('pulls', 'yoff', 'ylen'):
+                if gname in it.ghost_vars:
+                    pl = it.ghost_vars[gname]
+                    pl.seq = TSeq(TInt).fresh(gname)
+                    path.assume(pl.seq.length == it.out.seq.length)
         if _may_call(node):
             # ghost call counters of every callback in scope: arbitrary
             # (the invariant says what is known about them)
